@@ -9,7 +9,7 @@ PROPS = {
         'design_ref': 'DESIGN.md §5 U1, §6 C04',
     },
     'C01': {
-        'verus': ['program_lines', 'program_state', 'interp_api', 'source_map'],
+        'verus': ['program_lines', 'program_state', 'interp_api', 'source_map', 'tokenizer_ranges'],
         'kani': ['rng', 'arrays', 'tokenizer_matchers'],
         'level': 'proof',
         'design_ref': 'DESIGN.md §6 C01',
@@ -27,13 +27,19 @@ PROPS = {
         'design_ref': 'DESIGN.md §6 C03',
     },
     'C05': {
-        'verus': ['source_map'],
+        'verus': ['source_map', 'tokenizer_ranges'],
         'kani': ['tokenizer_matchers'],
         'level': 'proof',
         'design_ref': 'DESIGN.md §5 U5, §6 C05',
     },
+    'C13': {
+        'verus': ['tokenizer_ranges', 'source_map'],
+        'kani': ['tokenizer_matchers'],
+        'level': 'proof',
+        'design_ref': 'DESIGN.md §5 U11/K5, §6 C13',
+    },
     'C12': {
-        'verus': ['line_cruncher'],
+        'verus': ['line_cruncher', 'tokenizer_ranges'],
         'kani': ['tokenizer_matchers'],
         'level': 'proof',
         'design_ref': 'DESIGN.md §5 U4/K5, §6 C12',
@@ -105,6 +111,7 @@ UNDECIDED = {
     'C01': ["tokenizer / DATA parser / statement and expression evaluators: panic-freedom undecided", "native stack exhaustion by nested parentheses: no stack model in either tool", "get_line_with_pointer_caret (fmt): undecided"],
     'C03': ["statement dispatch, IF/ELSE token skipping, FOR/NEXT arithmetic in doubles (end_loop), DIM/array statements: undecided", "the IF..THEN GOSUB..ELSE defect named in the property lives in statement.rs and cannot be seen by this check"],
     'C05': ["SourceFileAnalyzer::run (enumerate/zip, tokenizer) - where the two known panics are - is outside both tools: this check cannot report them", "that registered token ranges lie within the line on char boundaries is C13's claim (not applicable)", "per-line token lists, symbol-warning mapping with unwrap: undecided"],
+    'C13': ["the complex matchers (keywords via chomp_any_keyword, string literals, numerals, REM, DATA, identifiers) enter as ASSUMED contracts (decline without moving / consume a non-empty in-line stretch / fail without moving with an in-line position); chomp_keyword and chomp_number are checked against them by Kani for bounded input lengths, the others not at all", "character boundaries, ranges ENDING on a non-blank byte for every token kind, REM/DATA extending to the end of their text, and the re-tokenization clause (tokenizing the text of a range yields that one token) are undecided", "remaining_tokens / remaining_tokens_and_ranges (for-loops over `&mut self` as an iterator) are outside Verus; the ordering lemma is stated for two consecutive next() calls"],
     'C12': ["identifier scanning with keyword lookahead, numerals, DATA items (String::from_utf8, str::parse, trim) and the composition in Tokenizer::next: undecided, including the `DATA \"a\" :` defect"],
     'C06': ["statement-level agreement (assignment / FOR / NEXT / READ kind checks in statement_analyzer.rs vs statement.rs) and the converse direction need both evaluators executed: undecided", "operand parsing below the unary tier (evaluate_parenthesized_expression: terms, calls, array subscripts) is an assumed contract", "termination of the tier loops is not claimed (exec_allows_no_decreases_clause)"],
     'C08': ["evaluate_input_statement (consume pending reply or rewind; EXTRA IGNORED / REENTER output) and the THEN/ELSE interplay are statement dispatch: undecided, including the known IF..INPUT..ELSE defect", "reply parsing (parse_data_until_colon) is the DATA item parser: undecided"],
